@@ -119,6 +119,22 @@ let () =
       let hl = if hs = "-" then [] else List.map (fun nv -> match String.split_on_char ':' nv with [n; v] -> { hname = bytes_of_hex n; hvalue = bytes_of_hex v } | [n] -> { hname = bytes_of_hex n; hvalue = [] } | _ -> failwith "hdr") (String.split_on_char ';' hs) in
       let r = { method0 = []; uri = []; version = []; headers = hl; body = [] } in
       (match get_header r (bytes_of_hex n) with Some h -> print_endline ("SOME " ^ hex_of_bytes h.hvalue) | None -> print_endline "NONE")
+    | ["ptrace"; n; tr] | ["ptrace"; n; tr; _] ->
+      let rec nat_of_int i = if i <= 0 then O else S (nat_of_int (i - 1)) in
+      let rec int_of_nat = function O -> 0 | S k -> 1 + int_of_nat k in
+      let evs = if tr = "" || tr = "-" then [] else String.split_on_char ',' tr in
+      let nsub = ref 0 in
+      let labels = List.filter_map (fun e ->
+        if e = "S" then (let j = !nsub in incr nsub; Some (Submit (nat_of_int j)))
+        else match e.[0] with
+          | 'A' -> Some (Acquire (nat_of_int (int_of_string (String.sub e 1 (String.length e - 1)))))
+          | 'R' -> Some (Receive (nat_of_int (int_of_string (String.sub e 1 (String.length e - 1)))))
+          | 'F' -> Some (Finish (nat_of_int (int_of_string (String.sub e 1 (String.length e - 1)))))
+          | _ -> None) evs in
+      let fuel = nat_of_int (4 * List.length labels + 10) in
+      (match accept_trace fuel (init (nat_of_int (int_of_string n))) labels with
+       | Some s -> Printf.printf "ACCEPT dead=%d done=%d queued=%d running=%d\n" (int_of_nat (dead s.ws)) (List.length s.done0) (List.length s.queue) (List.length (running s.ws))
+       | None -> print_endline "REJECT")
     | ["b64e"; h] -> (match encode (bytes_of_hex h) with Some t -> print_endline ("OK " ^ hex_of_bytes t) | None -> print_endline "ERR")
     | ["b64d"; h] -> (match decode (bytes_of_hex h) with Some t -> print_endline ("OK " ^ hex_of_bytes t) | None -> print_endline "ERR")
     | ["b64e"] -> print_endline "OK "
